@@ -50,6 +50,10 @@ def digest_frame(df):
 
 
 def digest_functions(f):
+    import pathlib
+
+    if isinstance(f, pathlib.Path):
+        return _h(f.read_text(encoding="utf-8"))
     if isinstance(f, dict):
         return _h(sorted((k, v.__module__, v.__name__, _h(v.__code__.co_code), repr(sorted((getattr(v, "__info__", {}) or {}).items(), key=str))) for k, v in f.items()))
     if isinstance(f, list):
@@ -104,6 +108,10 @@ def actions(tier):
     for d in DATES:
         acts.append({"op": "env", "date": d})
     acts.append({"op": "env", "date": 2021})
+    # two days of one month with a change date between them (elterngeld 2012-09-18), and two days of one year around a mid-year change
+    acts.append({"op": "env", "date": "2012-09-01"})
+    acts.append({"op": "env", "date": "2012-09-20"})
+    acts.append({"op": "env", "date": "2019-06-30"})
     acts.append({"op": "env", "date": 2023})
     acts.append({"op": "sim", "date": "2023-07-01", "pop": "fam", "targets": "default", "rounding": True, "debug": False, "form": "frame"})
     acts.append({"op": "sim", "date": "2023-01-01", "pop": "mix", "targets": "default", "rounding": True, "debug": False, "form": "frame"})
@@ -124,6 +132,9 @@ def actions(tier):
     acts.append({"op": "reform_function", "date": "2023-01-01", "pop": "fam", "rule": "kindergeld_m"})
     acts.append({"op": "reform_function_wrapped", "date": "2023-01-01", "pop": "fam", "rule": "kindergeld_m"})
     acts.append({"op": "reform_function_wrapped", "date": "2023-01-01", "pop": "fam", "rule": "ges_rentenv_beitr_arbeitnehmer_m"})
+    # a reform handed over as the path of a Python file; the user rewrites the file between two calls
+    acts.append({"op": "reform_file", "date": "2023-01-01", "pop": "fam", "variant": "kindergeld"})
+    acts.append({"op": "reform_file", "date": "2023-01-01", "pop": "fam", "variant": "soli"})
     acts.append({"op": "user_spec", "date": "2023-01-01", "pop": "fam"})
     acts.append({"op": "vectorize", "rules": ["kindergeld_m_ab_2023", "ges_rente_mit_grundrente_m", "eink_st_y_sn_kindergeld_oder_kinderfreib"]})
     acts.append({"op": "vectorize", "rules": ["anteil_entgeltp_ost", "arbeitsl_geld_2_m_bg", "_ges_krankenv_beitr_midijob_arbeitnehmer_m_residuum"]})
@@ -314,6 +325,19 @@ def execute(a, ctx):
 
             funcs = [f, {a["rule"]: reformed}]
             data, targets = df, None
+        elif op == "reform_file":
+            import pathlib
+            import tempfile
+
+            d = pathlib.Path(tempfile.gettempdir()) / f"verif_c14_reform_{os.getpid()}"
+            d.mkdir(exist_ok=True)
+            path = d / "reform.py"
+            if a["variant"] == "kindergeld":
+                path.write_text("def kindergeld_m(kindergeld_anz_ansprüche: int) -> float:\n    return kindergeld_anz_ansprüche * 300.0\n", encoding="utf-8")
+            else:
+                path.write_text("def soli_st_y_sn(eink_st_y_sn: float) -> float:\n    return eink_st_y_sn * 0.07\n", encoding="utf-8")
+            funcs = [f, path]
+            data, targets = df, None
         elif op == "user_spec":
             data, targets = df, ["alter_max_hh", "bruttolohn_m_hh"]
             kwargs = dict(aggregate_by_group_specs={"alter_max_hh": {"source_col": "alter", "aggr": "max"}})
@@ -340,6 +364,14 @@ def fresh_digest(a):
     return {"error": (r.stderr or r.stdout)[-400:]}
 
 
+def _cleanup_reform_dir():
+    import pathlib
+    import shutil
+    import tempfile
+
+    shutil.rmtree(pathlib.Path(tempfile.gettempdir()) / f"verif_c14_reform_{os.getpid()}", ignore_errors=True)
+
+
 def run_history(hist):
     """Executed in a forked child of the pristine parent.  Returns per-step observations."""
     harness.env.cache_clear()
@@ -352,6 +384,7 @@ def run_history(hist):
         except Exception as e:  # noqa: BLE001
             dig, complaints = f"raises:{type(e).__name__}:{str(e)[:80]}", []
         obs.append({"digest": dig, "complaints": complaints, "state": process_state_digest()})
+    _cleanup_reform_dir()
     return {"history": hist, "initial_state": s0, "steps": obs}
 
 
@@ -408,7 +441,7 @@ def run(tier):
             rep.violation("nondeterministic-across-processes:" + json.loads(k)["op"], {"history": [json.loads(k)]}, f"{k}: {fresh[k]} vs {again[k]}")
     # histories: singles, all ordered pairs, triples over the state-relevant alphabet, repeated calls
     hists = [[a] for a in acts] + [[a, b] for a in acts for b in acts]
-    small = [a for a in acts if a["op"] in ("vectorize", "vectorize_all", "reform", "failing_sim", "reform_function_wrapped", "reform_inplace_then_discard") or (a["op"] == "sim" and a["form"] != "frame")][: (6 if tier == "quick" else 9)]
+    small = [a for a in acts if a["op"] in ("vectorize", "vectorize_all", "reform", "failing_sim", "reform_function_wrapped", "reform_inplace_then_discard", "reform_file") or (a["op"] == "sim" and a["form"] != "frame")][: (6 if tier == "quick" else 9)]
     probe = [a for a in acts if a["op"] == "sim"][:3]
     hists += [[a, b, c] for a in small for b in small for c in probe]
     seen_states = set()
@@ -459,4 +492,5 @@ if __name__ == "__main__":
             dig, complaints = execute(a, Ctx())
         except Exception as e:  # noqa: BLE001
             dig, complaints = f"raises:{type(e).__name__}:{str(e)[:80]}", []
+        _cleanup_reform_dir()
         print("DIGEST " + json.dumps({"digest": dig, "complaints": complaints}))
